@@ -191,5 +191,29 @@ func Scenarios() []History {
 	)
 	add("cadence", smallParams(), nil, ops...)
 
+	// zero-height export with pending requests, earnings, a withdrawal address, a killed and a paused context
+	ops = registry(map[string]int64{"p1": 5, "p2": 3, "p3": 4})
+	ops = append(ops,
+		Ev{Name: "SetWithdrawAddr", Signer: "o1", Addr: "w1"},
+		Ev{Name: "Call", Signer: "c1", Svc: "s1", Provs: []string{"p1", "p2", "p3"}, Cap: 10, Timeout: 3, Rep: true, Freq: 4, Total: 5},
+		Ev{Name: "Call", Signer: "c2", Svc: "s1", Provs: []string{"p3"}, Cap: 10, Timeout: 2, Rep: true, Freq: 2, Total: -1},
+		Ev{Name: "ModCreate", Signer: "c2", Svc: "s1", Provs: []string{"p1", "p2"}, Cap: 10, Timeout: 2, Thr: 1},
+		eb(1),
+		Ev{Name: "Respond", Signer: "p1", Rid: rid(1, 1, 1, 0), Kind: "valid"},
+		Ev{Name: "Respond", Signer: "p3", Rid: rid(2, 1, 1, 0), Kind: "valid"},
+		Ev{Name: "Kill", Signer: "c2", ID: 2},
+		eb(1),
+		Ev{Name: "Obs"},
+		Ev{Name: "PrepZeroHeight"},
+		Ev{Name: "Genesis"},
+	)
+	add("genesis-busy", smallParams(), nil, ops...)
+
+	// zero-height export of an empty module and of a registry without contexts
+	add("genesis-empty", smallParams(), nil, Ev{Name: "PrepZeroHeight"}, Ev{Name: "Genesis"})
+	ops = registry(map[string]int64{"p1": 5})
+	ops = append(ops, Ev{Name: "Disable", Signer: "o1", Svc: "s1", Prov: "p1"}, eb(3), Ev{Name: "PrepZeroHeight"}, Ev{Name: "Genesis"})
+	add("genesis-registry", smallParams(), nil, ops...)
+
 	return hs
 }
